@@ -38,7 +38,10 @@ fn c17_weight_is_finite_positive_or_error() {
     kani::cover!(r.is_err() && t.is_nan(), "C17/weight/cover_nan_rejected");
     if let Ok(w) = &*r {
         assert!(w.is_finite() && *w > 0.0, "C17/weight/ok_weight_is_finite_and_positive");
-        assert!(t >= 0.0 && t <= 1.0 && p >= 0.0 && p <= 1.0 && c >= 0.0 && d >= 0.0, "C17/weight/ok_only_for_scores_in_range");
+        // trust/stability outside [0,1] (incl. NaN), negative capacity and negative or NaN diversity
+        // never yield a weight. (A NaN capacity with gamma == 0 contributes the factor 1 and is not an
+        // error; the property only demands "no panic, finite positive weight or error".)
+        assert!(t >= 0.0 && t <= 1.0 && p >= 0.0 && p <= 1.0 && !(c < 0.0) && d >= 0.0, "C17/weight/ok_only_for_scores_in_range");
     }
 }
 
@@ -101,19 +104,28 @@ fn check_sample(n: usize) {
     }
 }
 
-// @verif property=C17 class=bounded bound="0..=4 candidates, k in 0..=n+2, weights any f64 incl. NaN/inf/negative, every random draw in [0,1)" fns=WeightedSampler::sample_nodes uses=check_sample tier=quick,thorough panic=violation
-#[kani::proof]
-#[kani::stub(alloc::fmt::format, stub_format)]
-#[kani::stub(f64::powf, stub_powf)]
-#[kani::stub(fastrand::f64, stub_fastrand_f64)]
-#[kani::unwind(34)]
-fn c17_sample_nodes_4() {
-    let mut n = 0;
-    while n <= 4 {
-        check_sample(n);
-        n += 1;
-    }
+macro_rules! sample_harness {
+    ($name:ident, $n:expr) => {
+        #[kani::proof]
+        #[kani::stub(alloc::fmt::format, stub_format)]
+        #[kani::stub(f64::powf, stub_powf)]
+        #[kani::stub(fastrand::f64, stub_fastrand_f64)]
+        #[kani::unwind(7)]
+        fn $name() {
+            check_sample($n);
+        }
+    };
 }
+// @verif property=C17 class=bounded bound="0 candidates, k in 0..=2, weights any f64 incl. NaN/inf/negative, every random draw in [0,1)" fns=WeightedSampler::sample_nodes uses=check_sample,sample_harness unwindset="memcmp:33" tier=quick,thorough panic=violation
+sample_harness!(c17_sample_nodes_0, 0);
+// @verif property=C17 class=bounded bound="1 candidates, k in 0..=3, weights any f64 incl. NaN/inf/negative, every random draw in [0,1)" fns=WeightedSampler::sample_nodes uses=check_sample,sample_harness unwindset="memcmp:33" tier=quick,thorough panic=violation
+sample_harness!(c17_sample_nodes_1, 1);
+// @verif property=C17 class=bounded bound="2 candidates, k in 0..=4, weights any f64 incl. NaN/inf/negative, every random draw in [0,1)" fns=WeightedSampler::sample_nodes uses=check_sample,sample_harness unwindset="memcmp:33" tier=quick,thorough panic=violation
+sample_harness!(c17_sample_nodes_2, 2);
+// @verif property=C17 class=bounded bound="3 candidates, k in 0..=5, weights any f64 incl. NaN/inf/negative, every random draw in [0,1)" fns=WeightedSampler::sample_nodes uses=check_sample,sample_harness unwindset="memcmp:33" tier=quick,thorough panic=violation
+sample_harness!(c17_sample_nodes_3, 3);
+// @verif property=C17 class=bounded bound="4 candidates, k in 0..=6, weights any f64 incl. NaN/inf/negative, every random draw in [0,1)" fns=WeightedSampler::sample_nodes uses=check_sample,sample_harness unwindset="memcmp:33" tier=thorough panic=violation
+sample_harness!(c17_sample_nodes_4, 4);
 
 #[cfg(test)]
 include!("/verif/.build/replay/placement_algorithms.rs");
